@@ -26,9 +26,13 @@ Inductive wattr :=
 Definition nonempty {A : Type} (mk : list A -> wattr) (o : option (list A)) : list wattr :=
   match o with Some (x :: l) => [mk (x :: l)] | _ => [] end.
 
+(* serializeASPath skips segments without ASNs (fix 2131a070: such a segment is malformed on the wire) *)
+Definition wire_segments (p : list (bool * list N)) : list (bool * list N) :=
+  filter (fun sg : bool * list N => match snd sg with [] => false | _ => true end) p.
+
 (* the update sender calls PathAttributes(path, session is iBGP, peer is an RR client) *)
 Definition wire (ibgp rr : bool) (b : bgp) : list wattr :=
-  [WAsPath (b_aspath b); WOrigin (b_origin b); WNextHop (b_nh b)]
+  [WAsPath (wire_segments (b_aspath b)); WOrigin (b_origin b); WNextHop (b_nh b)]
   ++ (if N.eqb (b_med b) 0 then [] else [WMed (b_med b)])
   ++ (if b_atomic b then [WAtomic] else [])
   ++ (match b_agg b with Some a => [WAggregator a] | None => [] end)
